@@ -551,3 +551,117 @@ def decode_parity_block(arr, l, real, cands):
         if acc == real:
             return chosen
     return None
+
+
+# ---------------------------------------------------------------------------------------------------------------------
+# files larger than 4 GiB: every byte offset that fix computes must be 64-bit
+def sparse_diff(path, size, marks):
+    """compare a (possibly sparse) file with the version `marks` = {offset: bytes} over zeros, `size` bytes long, reading only the
+    extents that hold data (SEEK_DATA / SEEK_HOLE); returns None when equal, else a short description of the first difference"""
+    try:
+        st = os.stat(path)
+    except OSError:
+        return 'missing'
+    if st.st_size != size:
+        return 'size %d instead of %d' % (st.st_size, size)
+    regs = sorted(marks.items())
+    fd = os.open(path, os.O_RDONLY)
+    try:
+        for off, b in regs:                       # the marked regions themselves
+            got = os.pread(fd, len(b), off)
+            if got != b:
+                k = next(i for i in range(len(b)) if i >= len(got) or got[i] != b[i])
+                return 'bytes at offset %d differ' % (off + k)
+        pos = 0
+        CH = 8 << 20
+        while pos < size:                          # everything else must read as zeros: only the data extents can be non-zero
+            try:
+                d = os.lseek(fd, pos, os.SEEK_DATA)
+            except OSError:
+                break
+            h = os.lseek(fd, d, os.SEEK_HOLE)
+            p = d
+            while p < h:
+                n = min(CH, h - p)
+                chunk = os.pread(fd, n, p)
+                if chunk.count(0) != len(chunk):
+                    ba = bytearray(chunk)
+                    for off, b in regs:
+                        lo, hi = max(off, p), min(off + len(b), p + len(chunk))
+                        if lo < hi:
+                            ba[lo - p:hi - p] = bytes(hi - lo)
+                    if ba.count(0) != len(ba):
+                        k = next(i for i, x in enumerate(ba) if x)
+                        return 'non-zero byte at offset %d outside the written regions' % (p + k)
+                p += n
+            pos = h
+    finally:
+        os.close(fd)
+    return None
+
+
+def large_fix_trial(chk, binary, rng, variant, with_check=True, label='large_fix'):
+    """one data file of 4 GiB + 2 blocks (SPARSE: three small regions carry bytes; 16 MiB blocks, so block 256 starts exactly at 2^32
+    bytes), one parity.  variant 'damage': a byte flipped (size and time-stamp kept) in a block beyond 4 GiB and in one below;
+    variant 'lost': the file deleted.  After fix the WHOLE file must be the synced version (sparse-aware streaming comparison),
+    fix must say recovered and exit 0, and check must be quiet.  Returns a dict for the evidence."""
+    import time
+    bsk = 16384
+    a = Array(binary, nd=2, np_=1, blocksize_kib=bsk)
+    out = {'variant': variant}
+    t0 = time.time()
+    try:
+        bs = a.bs
+        nblk = (1 << 32) // bs + 2
+        size = (nblk - 1) * bs + 1007 + 7
+        p = a.path('d1', 'big')
+        marks = {0 * bs + 7: rng.randbytes(4096), 255 * bs + 100: rng.randbytes(3000), 256 * bs + 7: rng.randbytes(4096), 257 * bs + 7: rng.randbytes(1000)}
+        with open(p, 'wb') as f:
+            for off, b in marks.items():
+                f.seek(off)
+                f.write(b)
+            f.truncate(size)
+        if os.stat(p).st_blocks * 512 > (64 << 20):
+            out['skipped'] = 'the file system does not keep the file sparse'
+            return out
+        mt = 1700000000 * 10**9 + 12345
+        os.utime(p, ns=(mt, mt))
+        a.write('d2', 'small', rng.randbytes(3 * 1024))
+        r = a.run('sync', timeout=900)
+        if r.rc != 0:
+            chk.violation(label + '_sync', 'sync of a sparse file of 4 GiB + 2 blocks (16 MiB blocks) exits %d: %s' % (r.rc, r.err[-300:]), {'kind': label}, no_input=True)
+            return out
+        if variant == 'damage':
+            with open(p, 'r+b') as f:
+                for off in (256 * bs + 7 + 10, 0 * bs + 7 + 20):
+                    f.seek(off); x = f.read(1)
+                    f.seek(off); f.write(bytes([x[0] ^ 0x5a]))
+            os.utime(p, ns=(mt, mt))
+            desc = 'one byte flipped in block 256 (offset 2^32 + 17) and one in block 0, size and time-stamp kept'
+        else:
+            os.unlink(p)
+            desc = 'the file deleted'
+        r = a.run('fix', timeout=900)
+        out['fix_seconds'] = round(time.time() - t0, 1)
+        bad = []
+        if r.rc != 0:
+            bad.append('fix exits %d (%s)' % (r.rc, (r.err.strip().splitlines() or [''])[-1][:120]))
+        if not any(t == 'status:recovered:d1:big' for t in r.tags):
+            bad.append('fix does not report d1/big recovered')
+        d = sparse_diff(p, size, marks)
+        if d is not None:
+            bad.append('after fix d1/big is not the synced version: %s' % d)
+        elif os.stat(p).st_mtime_ns != mt:
+            bad.append('after fix d1/big has mtime %d instead of %d' % (os.stat(p).st_mtime_ns, mt))
+        if with_check and not bad:
+            r2 = a.run('check', timeout=900)
+            t2 = [t for t in interesting(r2.tags) if not t.startswith('summary:')]
+            if r2.rc != 0 or t2:
+                bad.append('check after fix exits %d and reports %s' % (r2.rc, t2[:2]))
+        out['seconds'] = round(time.time() - t0, 1)
+        for b_ in bad[:2]:
+            chk.violation(label, 'file of 4 GiB + 2 blocks of 16 MiB on d1, one parity, %s: %s' % (desc, b_), {'kind': label, 'variant': variant, 'problems': bad, 'fix_tags': interesting(r.tags)[:20]})
+        out['ok'] = not bad
+        return out
+    finally:
+        shutil.rmtree(a.root, ignore_errors=True)
